@@ -42,7 +42,7 @@ PROPS = {
                             "float rounding is outside the theorems; predicate inputs are exact in float64 or have a margin far above rounding"],
             "trusted": ["enumerations compared as sorted lists, all_sorted as size-sorted permutation, check_supermodularity as none/viol (triple checked by the oracle)"],
             "quick_s": 60, "thorough_s": 600},
-    "C05": {"lean": "ICG.Props.C05", "streams": [("corr_shapley", "C05")], "quick_s": 40, "thorough_s": 600,
+    "C05": {"lean": ["ICG.Props.C05", "ICG.Props.FloatErrorShapley"], "streams": [("corr_shapley", "C05")], "quick_s": 40, "thorough_s": 600,
             "rule": ("cases = (n=1..6 quick / 1..8 thorough, known flags, lower, upper) with entries multiples of n!·2^-k (exact in float64); 70% well-formed tables "
                      "(∅ known 0, known ⇒ lo=hi, lo≤hi), 30% arbitrary vectors, ~10% malformed (grand coalition unknown → err:value), ~12% degenerate; real class and "
                      "plain-Python IncompleteGame stub; random completions (vertex/interior/max-gain) for domination; non-trivial = ≥2 distinct non-zero widths and (lo,hi) "
